@@ -59,7 +59,17 @@ func VC19ArrayType() {
 // ---------- the resolver on generated definitions ----------
 
 // vTypeMenu: field types a section may use. Index 0.. ; A and B are the two dependent message types of package p.
-var vTypeMenu = []string{"int32", "A", "B", "p/A", "p/B", "Header", "A[]", "B[2]", "string[3]", "q/C", "p/B[]"}
+// 11..13 (pkgs=1 jobs): a second package q with its own A (different from p/A) and a type D whose field is the
+// unqualified A, which inside package q means q/A.
+var vTypeMenu = []string{"int32", "A", "B", "p/A", "p/B", "Header", "A[]", "B[2]", "string[3]", "q/C", "p/B[]", "q/D", "q/A", "q/D[]"}
+
+// vPkgsSub: the sub-menu used by pkgs=1 jobs
+var vPkgsSub = []int{0, 1, 2, 3, 6, 11, 12, 13}
+
+func vQA() []Field { return []Field{{Name: "qa", Type: Type{BaseType: "string"}}} }
+func vQD() []Field {
+	return []Field{{Name: "d", Type: Type{BaseType: "A", IsRecord: true, Fields: vQA()}}}
+}
 
 type vExp struct {
 	err    bool
@@ -91,6 +101,8 @@ func vExpectFields(sel []int, which int, onPath []bool) ([]Field, bool) {
 		base, isArr, fixed = "string", true, 3
 	case "p/B[]":
 		base, isArr = "p/B", true
+	case "q/D[]":
+		base, isArr = "q/D", true
 	default:
 		base = ft
 	}
@@ -113,6 +125,10 @@ func vExpectFields(sel []int, which int, onPath []bool) ([]Field, bool) {
 	case "Header":
 		f, _ := vExpectFields(sel, 3, onPath)
 		sub, isRec = f, true
+	case "q/A":
+		sub, isRec = vQA(), true
+	case "q/D":
+		sub, isRec = vQD(), true
 	default:
 		return nil, true // q/C: dependency not found
 	}
@@ -153,11 +169,15 @@ func vTypeEq(a, b *Type) bool {
 // params: k (menu size used), comments (1: interleave comment, constant and blank lines), twice (1: the root field type is used twice)
 func VC19Resolve() {
 	k := vParam("k")
+	pkgs := vParam("pkgs") == 1
 	sel := make([]int, 3)
 	for i := range sel {
 		s := vSymInt(vN("sel", i))
 		vAssume(vAnd(s >= 0, s < k))
 		sel[i] = vConcretize(s, k)
+		if pkgs {
+			sel[i] = vPkgsSub[sel[i]]
+		}
 	}
 	extra := ""
 	if vParam("comments") == 1 {
@@ -168,15 +188,28 @@ func VC19Resolve() {
 	if vParam("twice") == 1 {
 		second = vTypeMenu[sel[0]] + " \t r2 # again = same type\n" // (space and tab; the reference tools split on spaces)
 	}
-	text := extra + vTypeMenu[sel[0]] + " r\n" + second +
+	// pkgs=1: the root also has a field of type q/D before and after its selected field, and package q is defined:
+	// the same unqualified name A then means p/A in one place and q/A in another
+	z1, z2, qsecs := "", "", ""
+	if pkgs {
+		z1, z2 = "q/D z1\n", "q/D[] z2\n"
+		qsecs = "================================================================================\nMSG: q/D\nA d\n" +
+			"================================================================================\nMSG: q/A\nstring qa\n"
+	}
+	text := extra + z1 + vTypeMenu[sel[0]] + " r\n" + second + z2 +
 		"================================================================================\nMSG: p/A\n" + extra + vTypeMenu[sel[1]] + "   a # trailing comment, with an = sign\n" +
 		"================================================================================\nMSG: p/B\n" + vTypeMenu[sel[2]] + " b\n" +
-		"================================================================================\nMSG: std_msgs/Header\nuint32 seq\n"
+		"================================================================================\nMSG: std_msgs/Header\nuint32 seq\n" + qsecs
 	exp, expErr := vExpectFields(sel, 0, make([]bool, 4))
 	if !expErr && vParam("twice") == 1 {
 		f2 := exp[0]
 		f2.Name = "r2"
 		exp = append(exp, f2)
+	}
+	if !expErr && pkgs {
+		e := []Field{{Name: "z1", Type: Type{BaseType: "q/D", IsRecord: true, Fields: vQD()}}}
+		e = append(e, exp...)
+		exp = append(e, Field{Name: "z2", Type: Type{BaseType: "q/D[]", IsArray: true, Items: &Type{BaseType: "q/D", IsRecord: true, Fields: vQD()}}})
 	}
 	got, err := ParseMessageDefinition("p", []byte(text))
 	if expErr {
